@@ -168,6 +168,17 @@ static void build(vf::Plan &plan, const vf::Opts &o)
 #else
     bool T = o.thorough();
 #endif
+#ifdef VF_C03_REDUCED
+    // sanitizer build of the quick tier: every route on all sequences up to length 3 (bare and prefixed) and the truncations;
+    // what ASan adds over the plain build is the in-object (short) results and reads before the input
+    add_both(plan, "utf8: A8^<=3 all routes", ref::E8, A8, 3, false, all);
+    add_both(plan, "utf16: A16^<=3 all routes", ref::E16, A16, 3, false, all);
+    add_both(plan, "utf32: A32^<=3 all routes", ref::E32, A32, 3, false, all);
+    const bool reduced = true;
+#else
+    const bool reduced = false;
+#endif
+    if (!reduced) {
     add_both(plan, strf("utf8: A8^<=%u all routes", T ? 5u : 4u), ref::E8, A8, T ? 5 : 4, false, all);
     add_seq_stage(plan, strf("utf8: A8^%u primary routes", T ? 6u : 5u), ref::E8, A8, T ? 6 : 5, true, prim);
     if (T) add_seq_stage(plan, "utf8: core^8 primary routes", ref::E8, A8CORE, 8, true, prim);
@@ -184,9 +195,10 @@ static void build(vf::Plan &plan, const vf::Opts &o)
                },
                [](uint64_t i) { return strf("unit %04X in context %u", (unsigned)(i % 65536), (unsigned)(i / 65536)); });
     add_both(plan, strf("utf32: A32^<=%u all routes", T ? 5u : 4u), ref::E32, A32, T ? 5 : 4, false, all);
+    }
     // truncations of well-formed text: every prefix of every encoding of every sequence in B^<=3
     {
-        unsigned L = T ? 4 : 3;
+        unsigned L = reduced ? 2 : T ? 4 : 3;
         plan.stage(strf("every truncation of every encoding of B^<=%u, all routes", L), vf::seq_count(B.size(), L),
                    [=](uint64_t i, Ctx &c) {
                        U32V cps, units;
